@@ -34,11 +34,16 @@ def select(prop, rec):
 def run_bodies(prop, tier, seed):
     chk = Check(prop, tier, seed)
     rnd = random.Random(seed)
-    plan = [(5, 0, 2, 1.0, 0.25), (3, 3, 2, 0.5 if prop == "C05" else 0.25, 0.0)] if tier == "quick" else \
+    plan = [(5, 0, 2, 1.0 if prop == "C05" else 0.6, 0.25), (3, 3, 2, 0.5 if prop == "C05" else 0.2, 0.0)] if tier == "quick" else \
            [(6, 0, 2, 1.0, 0.25), (4, 3, 2, 1.0, 0.1), (4, 0, 3, 1.0, 0.0)]
     for (n1, n2, sol, frac, wfrac) in plan:
-        res = bodies.enumerate_instances(n1, n2, sol)
+        res = bodies.enumerate_instances(n1, n2, sol, ir=(n2 == 0))
         chk.add_tlc(res, ["CodegenRefinesControl"])
+        if n2 == 0:
+            nd, dr = bodies.drift(res.records, 4000)
+            chk.extra["codegen_model_vs_real_compile_body"] = {"instances_compared": nd, "differences": len(dr)}
+            for d in dr[:3]:
+                chk.drift.append({"SPEC-DRIFT": "spec/Codegen.tla!Comp differs from YPPrologCompiler.compile_body", "instance": d})
         inst = [r for r in bodies.dedupe(res.records) if select(prop, r)]
         total = len(inst)
         if frac < 1.0:
